@@ -165,7 +165,14 @@ impl Prop for C15 {
             let res = if on_thread {
                 let st = w.st();
                 let ev = &w.owned[i];
-                let r = std::thread::scope(|s| s.spawn(|| guard("Store::store_event", || st.store_event(ev))).join());
+                let slot = current_slot();
+                let r = std::thread::scope(|s| {
+                    s.spawn(|| {
+                        adopt_slot(slot);
+                        guard("Store::store_event", || st.store_event(ev))
+                    })
+                    .join()
+                });
                 match r {
                     Ok(Ok(Ok(off))) => Res::Ok(off),
                     Ok(Ok(Err(e))) => classify_err(&e),
@@ -265,11 +272,13 @@ impl Prop for C15 {
                     let results: Vec<Vec<(usize, Res)>> = {
                         let st = w.st();
                         let owned = &w.owned;
+                        let slot = current_slot();
                         std::thread::scope(|scope| {
                             let hs: Vec<_> = batches
                                 .iter()
                                 .map(|b| {
                                     scope.spawn(move || {
+                                        adopt_slot(slot);
                                         b.iter()
                                             .map(|i| {
                                                 let r = match guard("Store::store_event", || st.store_event(&owned[*i])) {
